@@ -2,11 +2,26 @@
 # C15 at process level with the RELEASE daemon binary (what ships): the writer thread dies at start-up
 # because /run/clockbound is a regular file; chronyd is absent (`nochrony`) or its socket exists but
 # nobody answers (`silent`: every query takes its full 3 x 1 s timeout). The process must exit.
-#   usage: c15_release.sh <clockbound binary> <nochrony|silent>     -> "exited <rc> <ms>" | "never <ms>"
+# `pollerdies <harness binary>`: a stand-in chronyd answers with the PHC as reference, the daemon is given the PHC
+# options, and the PHC's error-bound attribute reads "N/A": the POLLER thread panics at its first poll while the
+# writer thread is healthy and waiting for messages. The process must exit.
+#   usage: c15_release.sh <clockbound binary> <nochrony|silent|pollerdies> [harness binary]  -> "exited <rc> <ms>" | "never <ms>"
 exec unshare -m sh -c '
 mount -t tmpfs tmpfs /run || exit 99
-: > /run/clockbound
 sp=""
+extra=""
+if [ "$2" = pollerdies ]; then
+  mount -t tmpfs tmpfs /sys/bus/pci/devices || exit 97
+  mkdir -p /sys/bus/pci/devices/0000:00:05.0 /run/fakeif/device /run/chrony
+  echo "N/A" > /sys/bus/pci/devices/0000:00:05.0/phc_error_bound
+  printf "DRIVER=ena\nPCI_SLOT_NAME=0000:00:05.0\n" > /run/fakeif/device/uevent
+  "$3" fakechronyd /run/chrony/chronyd.sock 1346913072 0 40 </dev/null >/dev/null 2>&1 &
+  sp=$!
+  sleep 0.4
+  extra="--phc-ref-id PHC0 --phc-interface ../../../run/fakeif"
+else
+  : > /run/clockbound
+fi
 if [ "$2" = silent ]; then
   mkdir -p /run/chrony
   python3 -c "import socket,time; s=socket.socket(socket.AF_UNIX,socket.SOCK_DGRAM); s.bind(\"/run/chrony/chronyd.sock\"); time.sleep(40)" &
@@ -14,7 +29,7 @@ if [ "$2" = silent ]; then
   sleep 0.4
 fi
 start=$(date +%s%N)
-timeout 14 "$1" >/run/cb.log 2>&1 </dev/null; rc=$?
+timeout 14 "$1" $extra >/run/cb.log 2>&1 </dev/null; rc=$?
 end=$(date +%s%N)
 [ -n "$sp" ] && kill $sp 2>/dev/null
 ms=$(( (end - start) / 1000000 ))
